@@ -2,7 +2,7 @@
 From Coq Require Import ZArith List Bool Lia String.
 Import ListNotations.
 From GV Require Import Common.Wire gen.Gen_tables C12.Model C02.Model.
-From GV Require Export C02.Lemmas1 C02.Lemmas2.
+From GV Require Export C02.Lemmas1 C02.Lemmas2 C02.CodecLemmas.
 Open Scope Z_scope.
 
 (* Full statement (FALSE of the current table, see _refuted):
@@ -53,3 +53,9 @@ Qed.
 (* re-exports of parts 1 and 2 under this module's name *)
 Definition names_injective := Lemmas1.names_injective.
 Definition graph_roundtrip := Lemmas2.graph_roundtrip.
+Definition codec_reads_written := CodecLemmas.codec_reads_written.
+Definition codec_dynamic_listed := CodecLemmas.codec_dynamic_listed.
+Definition codec_every_record_loadable := CodecLemmas.codec_every_record_loadable.
+Definition codec_values_unconditional := CodecLemmas.codec_values_unconditional.
+Definition codec_conditional_keys_listed := CodecLemmas.codec_conditional_keys_listed.
+Definition codec_ctor_fed := CodecLemmas.codec_ctor_fed.
